@@ -86,9 +86,29 @@ func c09(tier string) int {
 func seqEnumCheck(id, tier string, quick, thorough time.Duration, plans []seq.Plan, eplans []enum.Plan, rule string, assumptions []string) int {
 	budget := hk.NewBudget(dur(tier, quick, thorough))
 	rp := hk.NewReporter(id)
+	// the finite parts first (indexed families, then the property's concurrent programs): the history
+	// walker deepens until the budget ends and would otherwise starve them
+	es := enum.RunPlans(rp, eplans, budget, verbose())
+	var cs *conc.Summary
+	if items := extraConc[id]; len(items) > 0 {
+		// concurrent programs of the property (schedule explorer), under the same reporter and budget
+		pool, err := conc.NewPool(0)
+		if err != nil {
+			return 3
+		}
+		b := 2
+		if tier == "thorough" {
+			b = 3
+		}
+		var its []conc.Item
+		for _, p := range items {
+			its = append(its, conc.Item{Name: "db", Params: p.src, MaxBound: b, MaxExecs: 3_000_000, Label: id + "/" + p.name})
+		}
+		cs = conc.RunItems(rp, pool, its, budget, verbose())
+		pool.Close()
+	}
 	sum := seq.RunPlans(rp, plans, budget, verbose())
 	cov := sum.Coverage(rule)
-	es := enum.RunPlans(rp, eplans, budget, verbose())
 	cov["enumerated_cases_per_family"] = es.Families
 	cov["enumerated_cases_complete"] = es.AllComplete
 	cov["enumerated_case_comparisons"] = es.Checks
@@ -98,22 +118,7 @@ func seqEnumCheck(id, tier string, quick, thorough time.Duration, plans []seq.Pl
 	if n, ok := cov["traces_validated_against_impl"].(int64); ok {
 		cov["traces_validated_against_impl"] = n + es.Cases
 	}
-	if items := extraConc[id]; len(items) > 0 {
-		// concurrent programs of the property (schedule explorer), under the same reporter and budget
-		pool, err := conc.NewPool(0)
-		if err != nil {
-			return 3
-		}
-		defer pool.Close()
-		b := 2
-		if tier == "thorough" {
-			b = 3
-		}
-		var its []conc.Item
-		for _, p := range items {
-			its = append(its, conc.Item{Name: "db", Params: p.src, MaxBound: b, MaxExecs: 3_000_000, Label: id + "/" + p.name})
-		}
-		cs := conc.RunItems(rp, pool, its, budget, verbose())
+	if cs != nil {
 		cov["concurrent_executions"] = cs.Execs
 		cov["concurrent_completed_bound"] = cs.Completed
 		if ex, ok := cov["exhaustive"].(bool); ok {
